@@ -10,9 +10,9 @@ Lemma key_eqb_spec a b : key_eqb a b = true <-> a = b.
 Proof.
   destruct a, b; simpl; split; intros H; try discriminate; try reflexivity;
     try (apply N.eqb_eq in H; subst; reflexivity);
-    try (inversion H; subst; apply N.eqb_refl).
-  - apply andb_true_iff in H. destruct H as [H1 H2]. apply N.eqb_eq in H1, H2. subst. reflexivity.
-  - inversion H; subst. rewrite !N.eqb_refl. reflexivity.
+    try (inversion H; subst; apply N.eqb_refl);
+    try (apply andb_true_iff in H; destruct H as [H1 H2]; apply N.eqb_eq in H1, H2; subst; reflexivity);
+    try (inversion H; subst; rewrite !N.eqb_refl; reflexivity).
 Qed.
 
 Lemma key_eqb_refl a : key_eqb a a = true.
@@ -505,9 +505,9 @@ Proof.
     set (bs := s_blocks st) in *. set (g := s_set st) in *.
     destruct (chain bs (s_fin st) b) as [ch|] eqn:Hc.
     2:{ exists r, s. simpl. split; [reflexivity|exact I]. }
-    set (A1 := concat (map (fin_block_units bs) ch) ++ hsh_batch bs ch).
+    set (A1 := vote_units b r' g ++ concat (map (fin_block_units bs) ch) ++ hsh_batch bs ch).
     set (uFh := WPut (KFh r' g) (VBlk b)). set (uHrs := WPut KHrs (VPair r' g)). set (uLfr := WPut KLfr (VNum r')).
-    assert (Hws : concat (map (fin_block_units bs) ch) ++ hsh_batch bs ch ++ [uFh; uHrs; uLfr]
+    assert (Hws : vote_units b r' g ++ concat (map (fin_block_units bs) ch) ++ hsh_batch bs ch ++ [uFh; uHrs; uLfr]
                   = (A1 ++ [uFh]) ++ [uHrs] ++ [uLfr]).
     { unfold A1. rewrite <- !app_assoc. reflexivity. }
     (* the pair (r', g) is new *)
@@ -521,7 +521,8 @@ Proof.
     { unfold le_rs in *. apply orb_true_iff in Hle. apply orb_true_iff. destruct Hle as [L|L]; [left; exact L|].
       apply andb_true_iff in L. destruct L as [L1 L2]. right. rewrite L1. apply N.leb_le in L2. simpl. apply N.leb_le. lia. }
     assert (HirrA : forallb (unit_irrelevant r s) (A1 ++ [uFh]) = true).
-    { unfold A1. rewrite !forallb_app, concat_irrelevant, hsh_batch_irrelevant. cbn [forallb].
+    { unfold A1. rewrite !forallb_app, concat_irrelevant, hsh_batch_irrelevant.
+      replace (forallb (unit_irrelevant r s) (vote_units b r' g)) with true by reflexivity. cbn [forallb andb].
       unfold uFh. cbn [unit_irrelevant reads_value]. rewrite Hnew. reflexivity. }
     pose proof (Inv_irrelevant _ _ _ _ _ _ I HirrA) as IA.
     pose proof (walk_irrelevant' _ _ _ _ _ _ I HirrA) as WA.
@@ -535,7 +536,7 @@ Proof.
           [apply (i_hdr _ _ _ _ _ I)|apply (i_blb _ _ _ _ _ I)].
       - pose proof (chain_has_end _ _ _ _ Hc Hne) as Hin.
         unfold dA, A1. rewrite !replay_app.
-        destruct (concat_writes_hdr_blb bs ch b d Hin) as [Hw1 Hw2].
+        destruct (concat_writes_hdr_blb bs ch b (replay d (vote_units b r' g)) Hin) as [Hw1 Hw2].
         split; apply grows_replay; apply grows_replay; assumption. }
     destruct HhA as [HhdrA HblbA].
     (* the write of hrs moves the head *)
